@@ -219,8 +219,12 @@ class Sim:
             self.roots_perturbed[int(t[2])] = True
             rr = self.roots.get(int(t[2]), (None, None))[1]
             if rr and rr.get("Link") and ob["outcome"] == "ok" and rr["Link"] in self.store:
-                b = self.store[rr["Link"]]; off = min(int(t[3]), len(b))
-                nb = b[:off] if t[4] == "-" else b[:off] + bytes([int(t[4])]) + b[off + 1:]
+                b = self.store[rr["Link"]]
+                if t[3] in ("droplink", "addlink", "dropvalue"):
+                    nb = damage_binary(b, t[3], int(t[4]))
+                else:
+                    off = min(int(t[3]), len(b))
+                    nb = b[:off] if t[4] == "-" else b[:off] + bytes([int(t[4])]) + b[off + 1:]
                 self.corrupted[rr["Link"]] = nb
         elif op == "cursor":
             if self.expect("cursor", idx, ob, "ok"):
@@ -523,6 +527,26 @@ def check_linkdiff(sim):
         res.append({"idx": idx, "D": D, "loads": loads, "new": new, "old": old, "loaded": set(ob["loads"]),
                     "same": rn.get("Link") == (ro or {}).get("Link")})
     return res
+
+def damage_binary(b, mode, k):
+    """the structural damage the harness applies to a binary-format node (runner.go damageBinary), recomputed
+    independently: three length-prefixed slices (keys, values, links) re-cut so that their counts no longer fit"""
+    from lib import _bodies
+    def uv(n):
+        o = bytearray()
+        while n >= 0x80:
+            o.append((n & 0x7F) | 0x80); n >>= 7
+        o.append(n); return bytes(o)
+    def sec(l):
+        return uv(len(l)) + b"".join(uv(len(x)) + x for x in l)
+    ks, i = _bodies(b, 0); vs, i = _bodies(b, i); ls, i = _bodies(b, i)
+    if mode == "droplink":
+        ls = ls[:len(ls) - k]
+    elif mode == "addlink":
+        ls = ls + [b""] * k
+    elif mode == "dropvalue":
+        vs = vs[:len(vs) - k]
+    return sec(ks) + sec(vs) + sec(ls)
 
 def check_reject(sim):
     """C19: a root that does not match the configuration / store must be rejected with an error.
